@@ -185,7 +185,20 @@ inline void sp_apply(sp_world &W, const sp_op &op) {
             cocls::suspend_point<int> t(std::coroutine_handle<>(W.probes[h].h), val);
             int got = t;
             if (got != val) W.err = "typed suspend point returned " + std::to_string(got) + " instead of " + std::to_string(val);
-            if (op.k % 2 == 0 && A) { *A << std::move(t); W.model[op.a].push_back(h); if (t.size() != 0) W.err = "merged-from typed suspend point not empty"; }
+            if (op.k % 4 == 0 && A) { *A << std::move(t); W.model[op.a].push_back(h); if (t.size() != 0) W.err = "merged-from typed suspend point not empty"; }
+            else if (op.k % 4 == 2 && A) {
+                // typed point built from an untyped one (takes over all its handles), then moved: the value and every handle travel along
+                *A << std::move(t); W.model[op.a].push_back(h);
+                size_t n = A->size();
+                cocls::suspend_point<int> u(std::move(*A), val + 1);
+                if (A->size() != 0 || u.size() != n) W.err = "suspend_point<T>(suspend_point<void>&&, value) did not take over all handles";
+                cocls::suspend_point<int> v(std::move(u));
+                int got2 = v;
+                if (got2 != val + 1) W.err = "moved typed suspend point returned " + std::to_string(got2) + " instead of " + std::to_string(val + 1);
+                if (u.size() != 0 || v.size() != n) W.err = "move construction of a typed suspend point lost or duplicated handles";
+                *A << std::move(v); // give the handles back (the model is unchanged)
+                if (A->size() != n) W.err = "handles lost on the way back from the typed suspend point";
+            }
             else { if (W.coro_mode) W.queued[h] = true; else W.expect[h]++; } // destroyed at scope end: flushes
         }
         break;
